@@ -37,7 +37,12 @@ def verify_function(prog, fv, setup, goals, contracts=None, models=None, loops=N
         it.split_minmax = split_minmax
         args, kw = setup(ctx, it)
         holder['args'] = (args, kw)
-        res = it.call_fn(fv, list(args), dict(kw), force_inline=True)
+        try:
+            res = it.call_fn(fv, list(args), dict(kw), force_inline=True)
+        except EndPath as e:
+            # obligations of an arbitrary-iteration path are evaluated while this path's objects are current
+            ctx.goal_list = list(end_goals(ctx, e.why)) if end_goals else []
+            raise
         # goals are evaluated here, while the objects built by setup() for THIS path are still current
         ctx.goal_list = list(goals(ctx, res))
         return ('ret', res)
@@ -68,9 +73,9 @@ def verify_function(prog, fv, setup, goals, contracts=None, models=None, loops=N
                                       'no-raise', extra={'clause': 'no-raise', 'exc': f"{ex.etype}: {ex.msg}"}))
         elif kind == 'end':
             rep.ended += 1
-            if end_goals:
-                for cl, g in end_goals(ctx, oc[1]):
-                    obs.append(Obligation(f"{fname}::{cl}[p{pid}]", ctx.pc, g, 'post', extra={'clause': cl}))
+            for cl, g in getattr(ctx, 'goal_list', []):
+                obs.append(Obligation(f"{fname}::{cl}[p{pid}]", ctx.pc, g if not isinstance(g, bool) else z3.BoolVal(g), 'post',
+                                      extra={'clause': cl}))
         else:
             rep.unsupported.append(oc[1])
         if on_path:
